@@ -46,26 +46,26 @@ package bus
 //@   ensures all(j, uint32, j <= end-start && isnil(b.segment[(start+j)>>4]) ==> data[j] == old(data[j]))
 //@   ensures all(j, uint32, j > end-start && int(j) < len(data) ==> data[j] == old(data[j]))
 //@   assigns data
-//@   loop 1 invariant start>>4 <= k && k <= (end>>4)+1 && start <= a && a <= end+1 && i == int(a-start)
-//@   loop 1 invariant a == end+1 || a>>4 == k
-//@   loop 1 invariant all(j, uint32, j < a-start && !isnil(b.segment[(start+j)>>4]) ==> data[j] == b.segment[(start+j)>>4].Read(start+j))
-//@   loop 1 invariant all(j, uint32, j < a-start && isnil(b.segment[(start+j)>>4]) ==> data[j] == old(data[j]))
-//@   loop 1 invariant all(j, uint32, j >= a-start && int(j) < len(data) ==> data[j] == old(data[j]))
-//@   loop 1 decreases (end>>4) + 1 - k
+//@   loop 1 invariant start>>4 <= l1phi3 && l1phi3 <= (end>>4)+1 && start <= l1phi1 && l1phi1 <= end+1 && l1phi2 == int(l1phi1-start)
+//@   loop 1 invariant l1phi1 == end+1 || l1phi1>>4 == l1phi3
+//@   loop 1 invariant all(j, uint32, j < l1phi1-start && !isnil(b.segment[(start+j)>>4]) ==> data[j] == b.segment[(start+j)>>4].Read(start+j))
+//@   loop 1 invariant all(j, uint32, j < l1phi1-start && isnil(b.segment[(start+j)>>4]) ==> data[j] == old(data[j]))
+//@   loop 1 invariant all(j, uint32, j >= l1phi1-start && int(j) < len(data) ==> data[j] == old(data[j]))
+//@   loop 1 decreases (end>>4) + 1 - l1phi3
 //@   loop 1 modifies data
-//@   loop 2 invariant start <= a && a <= end+1 && i == int(a-start)
-//@   loop 2 invariant a == end+1 || a>>4 == k || a == (k+1)<<4
-//@   loop 2 invariant all(j, uint32, j < a-start && !isnil(b.segment[(start+j)>>4]) ==> data[j] == b.segment[(start+j)>>4].Read(start+j))
-//@   loop 2 invariant all(j, uint32, j < a-start && isnil(b.segment[(start+j)>>4]) ==> data[j] == old(data[j]))
-//@   loop 2 invariant all(j, uint32, j >= a-start && int(j) < len(data) ==> data[j] == old(data[j]))
-//@   loop 2 decreases end + 1 - a
+//@   loop 2 invariant start <= l2phi1 && l2phi1 <= end+1 && l2phi2 == int(l2phi1-start)
+//@   loop 2 invariant l2phi1 == end+1 || l2phi1>>4 == l1phi3 || l2phi1 == (l1phi3+1)<<4
+//@   loop 2 invariant all(j, uint32, j < l2phi1-start && !isnil(b.segment[(start+j)>>4]) ==> data[j] == b.segment[(start+j)>>4].Read(start+j))
+//@   loop 2 invariant all(j, uint32, j < l2phi1-start && isnil(b.segment[(start+j)>>4]) ==> data[j] == old(data[j]))
+//@   loop 2 invariant all(j, uint32, j >= l2phi1-start && int(j) < len(data) ==> data[j] == old(data[j]))
+//@   loop 2 decreases end + 1 - l2phi1
 //@   loop 2 modifies data
-//@   loop 3 invariant start <= a && a <= end+1 && i == int(a-start)
-//@   loop 3 invariant a == end+1 || a>>4 == k || a == (k+1)<<4
-//@   loop 3 invariant all(j, uint32, j < a-start && !isnil(b.segment[(start+j)>>4]) ==> data[j] == b.segment[(start+j)>>4].Read(start+j))
-//@   loop 3 invariant all(j, uint32, j < a-start && isnil(b.segment[(start+j)>>4]) ==> data[j] == old(data[j]))
-//@   loop 3 invariant all(j, uint32, j >= a-start && int(j) < len(data) ==> data[j] == old(data[j]))
-//@   loop 3 decreases end + 1 - a
+//@   loop 3 invariant start <= l3phi1 && l3phi1 <= end+1 && l3phi2 == int(l3phi1-start)
+//@   loop 3 invariant l3phi1 == end+1 || l3phi1>>4 == l1phi3 || l3phi1 == (l1phi3+1)<<4
+//@   loop 3 invariant all(j, uint32, j < l3phi1-start && !isnil(b.segment[(start+j)>>4]) ==> data[j] == b.segment[(start+j)>>4].Read(start+j))
+//@   loop 3 invariant all(j, uint32, j < l3phi1-start && isnil(b.segment[(start+j)>>4]) ==> data[j] == old(data[j]))
+//@   loop 3 invariant all(j, uint32, j >= l3phi1-start && int(j) < len(data) ==> data[j] == old(data[j]))
+//@   loop 3 decreases end + 1 - l3phi1
 //@   loop 3 modifies data
 
 //@ func New
